@@ -52,7 +52,7 @@ class SignedCertificateTimestamp(ParsableBase, Serializable):
         converter=CertificateTransparencyLog.from_log_id,
         validator=attr.validators.instance_of(CertificateTransparencyLogParamsBase)
     )
-    timestamp = attr.ib(validator=attr.validators.instance_of(datetime.datetime))
+    timestamp = attr.ib(validator=attr.validators.optional(attr.validators.instance_of(datetime.datetime)))
     extensions = attr.ib(
         validator=attr.validators.deep_iterable(member_validator=attr.validators.instance_of(CtExtensions))
     )
